@@ -65,13 +65,36 @@ func scenC19(r *Run) {
 	if r.PlanBool(3) {
 		stalls = []time.Duration{timeout / 2, timeout}
 	}
+	// dense: publishes a millisecond apart and subscription changes in the middle of them, so that subscribing,
+	// unsubscribing and polling meet publishes in flight
+	dense := r.PlanBool(3)
+	// late: a consumer that is already polling for one topic subscribes to a second one while a producer publishes
+	// on that second topic without pause - a publish accepted the instant the broker knows the subscription must
+	// reach the consumer although its Subscribe call has not even returned yet
+	late := r.Plan(4) == 0
+	if late {
+		dense = true
+		if ntopics < 2 {
+			ntopics = 2
+		}
+	}
+	r.Param("late_subscribe", late)
+	r.Param("dense", dense)
 	r.Param("level", level)
 	r.Param("timeout", timeout.String())
 	r.Param("heartbeat", heartbeat.String())
 	r.Param("consumers", ncons)
 	r.Param("producers", nprod)
 	r.Param("topics", ntopics)
-	sim := r.StartSim(verifsim.Config{IdleCap: 3 * time.Hour, StepCap: 250000, StallChoices: stalls, StallWeight: 40}, "rpc/plugins/push", "rpc/core", "rpc/mock")
+	// half of the runs preempt only inside the push plugin, with short quanta: its windows are a statement or two wide
+	cfg := verifsim.Config{IdleCap: 3 * time.Hour, StepCap: 250000, StallChoices: stalls, StallWeight: 40}
+	prefixes := []string{"rpc/plugins/push", "rpc/core", "rpc/mock"}
+	if r.PlanBool(2) {
+		cfg.GapChoices, cfg.PCTSteps = smallGaps, 400
+		prefixes = prefixes[:1]
+	}
+	r.Param("yields", strings.Join(prefixes, ","))
+	sim := r.StartSim(cfg, prefixes...)
 	service := core.NewService()
 	broker := push.NewBroker(service)
 	broker.Timeout = timeout
@@ -160,7 +183,15 @@ func scenC19(r *Run) {
 		}
 		var cops []cop
 		for i, n := 0, r.Plan(4); i < n; i++ {
-			cops = append(cops, cop{r.PlanDur(0, timeout/3, timeout, 3*timeout), topics[r.Plan(ntopics)], r.PlanBool(2)})
+			after := r.PlanDur(0, timeout/3, timeout, 3*timeout)
+			if dense {
+				after = r.PlanDur(0, time.Millisecond, 2*time.Millisecond, 5*time.Millisecond)
+			}
+			cops = append(cops, cop{after, topics[r.Plan(ntopics)], r.PlanBool(2)})
+		}
+		if late {
+			initial = mine[:1]
+			cops = append([]cop{{r.PlanDur(5*time.Millisecond, 5*time.Millisecond, 6*time.Millisecond, 7*time.Millisecond), topics[1], true}}, cops...)
 		}
 		pauses := r.PlanBool(4) && heartbeat > 0 && heartbeat < time.Hour
 		if level == "prosumer" {
@@ -171,8 +202,7 @@ func scenC19(r *Run) {
 			ntasks++
 			sim.Task("cons-"+c, func() {
 				defer func() { finished++ }()
-				for _, t := range initial {
-					t := t
+				subscribe := func(t string) {
 					op := &c19subop{c: c, topic: t, sub: true}
 					subops = append(subops, op)
 					op.inv = sim.Event("sub", c, t)
@@ -182,6 +212,28 @@ func scenC19(r *Run) {
 						verifsim.Yield(-70)
 					})
 					op.ret = sim.Event("sub-done", c, t, op.result)
+				}
+				for _, t := range initial {
+					subscribe(t)
+				}
+				// further topics are subscribed (and dropped) while the poll loop is already running
+				for _, o := range cops {
+					if o.after > 0 {
+						time.Sleep(o.after)
+						verifsim.ForceYield(-75)
+					}
+					if stop {
+						return
+					}
+					if o.sub {
+						subscribe(o.topic)
+						continue
+					}
+					op := &c19subop{c: c, topic: o.topic, sub: false}
+					subops = append(subops, op)
+					op.inv = sim.Event("unsub", c, o.topic)
+					op.result, _ = ps.Unsubscribe(o.topic)
+					op.ret = sim.Event("sub-done", c, o.topic, op.result)
 				}
 			})
 			continue
@@ -261,6 +313,9 @@ func scenC19(r *Run) {
 		pi := pi
 		via := r.PlanOf("broker", "client")
 		npub := 1 + r.Plan(8)
+		if dense {
+			npub = 6 + r.Plan(12)
+		}
 		type pp struct {
 			gap     time.Duration
 			topic   string
@@ -271,6 +326,12 @@ func scenC19(r *Run) {
 		for i := 0; i < npub; i++ {
 			nextMsg++
 			p := pp{gap: r.PlanDur(0, 0, time.Millisecond, timeout/2, timeout, timeout+time.Millisecond, 2*timeout), topic: topics[r.Plan(ntopics)], m: nextMsg}
+			if dense {
+				p.gap = r.PlanDur(0, time.Millisecond, time.Millisecond, 2*time.Millisecond)
+			}
+			if late {
+				p.gap, p.topic = r.PlanDur(0, 0, 0, time.Millisecond), topics[1]
+			}
 			switch r.Plan(3) {
 			case 0: // unicast
 				p.targets = []string{cons[r.Plan(ncons)]}
@@ -422,6 +483,18 @@ func scenC19(r *Run) {
 					for _, u := range unsubAt[key] {
 						if u > pb.inv && u < chance {
 							exempt = true
+						}
+					}
+					if !exempt && level == "prosumer" && r.Opt["noexempt"] == "" {
+						// at this level "delivered" means the callback ran: a message the prosumer received in a poll is
+						// dropped, legitimately, when the consumer itself unsubscribes from the topic before the
+						// dispatch gets to it (an Unsubscribe call that had not returned when the publish began counts:
+						// the prosumer forgets the callback first and tells the broker afterwards)
+						for _, op := range subops {
+							if !op.sub && op.c == c && op.topic == t && (op.ret == 0 || op.ret > pb.inv) {
+								exempt = true
+								sim.Probes["received-message-dropped-by-the-consumers-own-unsubscribe"]++
+							}
 						}
 					}
 					if exempt {
